@@ -85,6 +85,8 @@ def features(e, out=None):
                     found.add('conditional-expression-operand-not-parenthesised')
                 if c[0] == 'Lambda':
                     found.add('lambda-operand-not-parenthesised')
+        if k == 'Bin' and x[1] == 'Pow' and _is_negative_const(x[2]):
+            found.add('generator-form:negative-constant-base-of-power-not-parenthesised')
         if k == 'Un' and x[1] == 'Invert':
             found.add('invert-operator-crashes')
         if k == 'FStr' and len(x[1]) == 1 and x[1][0][0] == 'Fld' and not x[1][0][2] and not x[1][0][3]:
@@ -105,13 +107,14 @@ def features(e, out=None):
     order = ['invert-operator-crashes', 'fstring-format-spec-dropped', 'fstring-literal-brace-not-escaped',
              'conditional-expression-operand-not-parenthesised', 'lambda-operand-not-parenthesised',
              'primary-of-attribute-subscript-call-not-parenthesised', 'attribute-of-int-literal',
-             'single-element-tuple-subscript-loses-comma', 'generator-form:bare-formatted-value-loses-str-conversion']
+             'single-element-tuple-subscript-loses-comma', 'generator-form:bare-formatted-value-loses-str-conversion',
+             'generator-form:negative-constant-base-of-power-not-parenthesised']
     return [f for f in order if f in found]
 
 
 def signature(part, feats, form=None):
     feats = [f for f in feats if not f.startswith('generator-form:') or form == 'generator']
-    return 'C04:%s:%s' % (part, feats[0] if feats else 'no-known-feature')
+    return 'C04:%s' % (feats[0] if feats else part + ':no-known-feature')
 
 
 first_diff = px.first_diff
